@@ -55,20 +55,50 @@ class Ref:
 
 
 class HRef:
-    """reference to element idx of heap vector vid (heap = mstate['heap'])"""
+    """reference to element idx of heap vector vid (heap = mstate['heap']), optionally to a part of it (proj: field /
+    downcast projections applied to the element, e.g. `&mut population[i].objective`)"""
 
-    def __init__(self, vid, idx):
+    def __init__(self, vid, idx, proj=()):
         self.vid = vid
         self.idx = idx
+        self.proj = tuple(tuple(x) if isinstance(x, list) else x for x in proj)
 
     def __repr__(self):
-        return "HRef(%s[%d])" % (self.vid, self.idx)
+        return "HRef(%s[%d]%s)" % (self.vid, self.idx, "".join(".%s" % (x[1],) if isinstance(x, tuple) and x[0] == "f" else "" for x in self.proj))
 
     def __eq__(self, o):
-        return isinstance(o, HRef) and (o.vid, o.idx) == (self.vid, self.idx)
+        return isinstance(o, HRef) and (o.vid, o.idx, o.proj) == (self.vid, self.idx, self.proj)
 
     def __hash__(self):
-        return hash(("HRef", self.vid, self.idx))
+        return hash(("HRef", self.vid, self.idx, self.proj))
+
+
+def href_get(interp, env, h):
+    """the value an element reference denotes"""
+    items = interp.mstate.get("heap", {}).get(h.vid, ())
+    if h.idx >= len(items):
+        return TOP
+    v = items[h.idx]
+    if h.proj:
+        v = interp._project(env, v, [list(x) if isinstance(x, tuple) else x for x in h.proj])
+    return v
+
+
+def href_set(interp, env, h, val, extra=()):
+    """store through an element reference (with further projections `extra`)"""
+    heap = dict(interp.mstate.get("heap", {}))
+    items = list(heap.get(h.vid, ()))
+    if h.idx >= len(items):
+        return False
+    path = [list(x) if isinstance(x, tuple) else x for x in h.proj] + list(extra)
+    items[h.idx] = interp._store(env, items[h.idx], path, val) if path else val
+    heap = dict(interp.mstate.get("heap", {}))      # _store may have updated other vectors
+    cur = list(heap.get(h.vid, ()))
+    if h.idx < len(cur):
+        cur[h.idx] = items[h.idx]
+    heap[h.vid] = tuple(cur)
+    interp.mstate["heap"] = heap
+    return True
 
 
 class Agg:
@@ -285,7 +315,12 @@ class Interp:
             fn = self.facts.fn_opt(key)
             if fn is not None and (self.inline is None or self.inline(key)):
                 return self.call_body(fn, list(args))
-            # not a crate function: ask the oracle
+            # not a crate function (`Vec::as_slice`, `Clone::clone`, ... used as a function value): ask the oracle
+            if self.oracle is not None:
+                env_ = getattr(self, "cur_env", None) or {}
+                res = self.oracle(self, env_, fv[1], list(args), {"target": 0, "dest": [0, []], "args": [], "f": fv[1]}, -1, Path())
+                if res is not TOP and res != "DIVERGE":
+                    return [(res, [], "return", dict(self.mstate))]
             return None
         return None
 
@@ -385,8 +420,7 @@ class Interp:
                 if isinstance(v, Ref):
                     v = self.read_ref(env, v)
                 elif isinstance(v, HRef):
-                    items = self.mstate.get("heap", {}).get(v.vid, ())
-                    v = items[v.idx] if v.idx < len(items) else TOP
+                    v = href_get(self, env, v)
                 elif isinstance(v, Sym):
                     v = v.fields.get("*", v)
                 else:
@@ -444,12 +478,7 @@ class Interp:
                 self.write_ref(env, base, val, proj[1:])
                 return base
             if isinstance(base, HRef):
-                h = dict(self.mstate.get("heap", {}))
-                items = list(h.get(base.vid, ()))
-                if base.idx < len(items):
-                    items[base.idx] = self._store(env, items[base.idx], proj[1:], val)
-                    h[base.vid] = tuple(items)
-                    self.mstate["heap"] = h
+                href_set(self, env, base, val, proj[1:])
                 return base
             if isinstance(base, Sym):
                 return base  # stores into opaque symbols are visible as events only
@@ -605,6 +634,11 @@ class Interp:
                 if isinstance(base, HRef):
                     if len(p[1]) == 1:
                         return base
+                    rest = p[1][1:]
+                    if all(isinstance(x, list) and x[0] in ("f", "d") for x in rest):
+                        tgt_ = self._project(env, base, p[1])
+                        if not (hasattr(tgt_, "vid") or isinstance(tgt_, (Sym, HRef, Ref))):     # handles and symbols are reference-like themselves
+                            return HRef(base.vid, base.idx, tuple(base.proj) + tuple(tuple(x) for x in rest))
                     v_ = self._project(env, base, p[1])
                     if hasattr(v_, "borrowed") and not v_.borrowed:      # `&mut elem.field` holding a vector handle
                         v_ = type(v_)(v_.vid, True, v_.lo, v_.hi)
@@ -915,8 +949,7 @@ def std_oracle(interp, env, f, args, t, bb, path):
             if isinstance(v, Ref):
                 v = interp.read_ref(env, v)
             elif isinstance(v, HRef):
-                items = interp.mstate.get("heap", {}).get(v.vid, ())
-                v = items[v.idx] if v.idx < len(items) else TOP
+                v = href_get(interp, env, v)
             else:
                 break
         return v
@@ -1013,13 +1046,8 @@ def std_oracle(interp, env, f, args, t, bb, path):
             if isinstance(a0, Ref):
                 interp.write_ref(env, a0, new_v)
             else:
-                h = dict(interp.mstate.get("heap", {}))
-                items = list(h.get(a0.vid, ()))
-                if a0.idx >= len(items):
+                if not href_set(interp, env, a0, new_v):
                     return TOP
-                items[a0.idx] = new_v
-                h[a0.vid] = tuple(items)
-                interp.mstate["heap"] = h
             return old
         return TOP
     if key in ("core::option::Option::as_ref", "core::option::Option::as_mut", "core::option::Option::as_deref", "core::option::Option::as_deref_mut"):
